@@ -81,7 +81,10 @@ func c15(c *Ctx) {
 			keptMu.Unlock()
 		}
 		sess, err := newSession(nil, func(cn *client.Conn) {
-			for _, ev := range []string{"PRIVMSG", "CTCP", "ACTION"} { // a \x01-wrapped PRIVMSG is delivered as CTCP
+			if s%2 == 0 { // the built-in state handlers see the line first: what THEY are given is theirs too
+				cn.EnableStateTracking()
+			}
+			for _, ev := range []string{"PRIVMSG", "CTCP", "ACTION", "353", "MODE"} { // a \x01-wrapped PRIVMSG is delivered as CTCP
 				if !lone {
 					cn.HandleFunc(ev, keeper)
 					cn.HandleBG(ev, client.HandlerFunc(keeper))
@@ -110,6 +113,15 @@ func c15(c *Ctx) {
 				sb.WriteString([]string{"@ ", "@; ", "@;; "}[c.R.N(3)])
 			case 5:
 				sb.WriteString("@flag ")
+			}
+			if c.R.P(1, 8) {
+				// lines the built-in state handlers look at before the user's handlers get their copies: a names reply in
+				// the RFC 1459 layout (three parameters), one in the RFC 2812 layout, a channel MODE
+				raw := []string{fmt.Sprintf(":irc.test 353 me #chan%d :alice @bob +carol", i), fmt.Sprintf(":irc.test 353 me = #chan%d :alice @bob", i),
+					fmt.Sprintf(":op!o@h MODE #chan%d +ov alice bob", i)}[c.R.N(3)]
+				raws = append(raws, raw)
+				sess.srv.SendLine(raw)
+				continue
 			}
 			if c.R.P(1, 8) {
 				// a line with nothing a copy would have to duplicate: no tags, no parameters - its scalar fields are
